@@ -850,6 +850,23 @@ def csv_roundtrip_problems(t, tmp, tag, wide=True, long=True):
                        f"first difference {diff}")
         elif len(back.slices) != len(t.slices):
             out.append(f"{what}: {len(back.slices)} slices back, {len(t.slices)} written")
+        else:
+            # "numeric values as floats": ONE number written (Python / NumPy scalar, 0-d array) is one number back, not a
+            # 1-element sample vector (the canonical form above identifies the two because a written 1-element vector
+            # legitimately comes back as a scalar; the converse is a change of the value's kind)
+            kw = {"merge_loss": True} if w is wantm and w is not want else {}
+            a = sorted(t, key=lambda c: repr(canon_cell(c, **kw)))
+            b = sorted(back, key=lambda c: repr(canon_cell(c, **kw)))
+            for ca, cb in zip(a, b):
+                for k_, va in ca.values.items():
+                    vb = cb.values.get(k_)
+                    if not (isinstance(va, np.ndarray) and va.ndim >= 1) and isinstance(vb, np.ndarray) and vb.ndim >= 1:
+                        out.append(f"{what}: field {k_} held the single number {va!r} ({type(va).__name__}) and came back as the "
+                                   f"{vb.shape} array {vb!r}")
+                        break
+                else:
+                    continue
+                break
     return out
 
 
